@@ -191,6 +191,11 @@ def check(tier):
     for shorter in range(1, hist_len):
         rc, h2 = common.run_tlc("ConverterHistory", "CONSTANTS MaxLen = %d NRuns = 0 NEvents = 0\nINIT HInit\nNEXT HNext\nINVARIANT EmitHistory\nCHECK_DEADLOCK FALSE\n" % shorter)
         hists += list(common.tagged_lines(h2, "@H"))
+    if tier == "thorough":
+        import random
+        long_ = [h for h in hists if len(h) == hist_len]
+        random.Random(common.seed() + 3).shuffle(long_)
+        hists = [h for h in hists if len(h) < hist_len] + long_[:400]      # every history up to length 3, a sample of length 4
     if not hists or not sel:
         raise common.MachineryError("no schedules / histories were generated")
     work = common.scratch("c19-")
@@ -205,13 +210,42 @@ def check(tier):
         jobs += [("shared", 8, bpath, work, i) for i in range(stress_runs)]
         with cf.ThreadPoolExecutor(max_workers=common.NCPU) as ex:
             runs = list(ex.map(child, jobs))
-        tp = os.path.join(work, "trace.json")
-        json.dump([{"events": r["events"]} for r in runs], open(tp, "w"))
-        nev = sum(len(r["events"]) for r in runs)
-        rc, out = common.run_tlc("ConverterHistory", "CONSTANTS MaxLen = 0 NRuns = %d NEvents = %d\nINIT TInit\nNEXT TStep\nPOSTCONDITION AllConsumed\nCHECK_DEADLOCK FALSE\n" % (len(runs), nev),
-                                 env={"CONV_TRACE": tp}, heap="4g")
-        if '"@DONE' not in out:
-            raise common.MachineryError("ConverterHistory.tla did not consume the trace:\n" + out[-2000:])
+        # the runs are validated in chunks (TLC's JsonDeserialize holds a whole trace in memory); the single-converter
+        # runs come first in EVERY chunk: they define memo[cc], so all chunks are held against the same reference
+        nref = sum(1 for r in runs if r["mode"] == "hist" and len(r["input"]) == 1)
+        ref, rest = runs[:nref], runs[nref:]
+        chunks, cur, size = [], [], 0
+        for r in rest:
+            if cur and size + len(r["events"]) > 120000:
+                chunks.append(cur)
+                cur, size = [], 0
+            cur.append(r)
+            size += len(r["events"])
+        chunks.append(cur)
+        nev = 0
+        fails = []
+
+        def validate(ci_chunk):
+            ci, chunk = ci_chunk
+            part = ref + chunk
+            tp = os.path.join(work, "trace-%d.json" % ci)
+            json.dump([{"events": r["events"]} for r in part], open(tp, "w"))
+            n = sum(len(r["events"]) for r in part)
+            rc, out = common.run_tlc("ConverterHistory", "CONSTANTS MaxLen = 0 NRuns = %d NEvents = %d\nINIT TInit\nNEXT TStep\nPOSTCONDITION AllConsumed\nCHECK_DEADLOCK FALSE\n" % (len(part), n),
+                                     env={"CONV_TRACE": tp}, heap="4g")
+            if '"@DONE' not in out:
+                raise common.MachineryError("ConverterHistory.tla did not consume the trace:\n" + out[-2000:])
+            os.unlink(tp)
+            res = []
+            for f in common.tagged_lines(out, "@F"):
+                if f["run"] <= len(ref) and ci > 0:
+                    continue                      # the reference runs are reported once (with chunk 0)
+                res.append((part[f["run"] - 1], f))
+            return n, res
+        with cf.ThreadPoolExecutor(max_workers=4) as ex:
+            for n, res in ex.map(validate, list(enumerate(chunks))):
+                nev += n
+                fails += res
         # configuration independence on a WIDE battery: one converter per configuration class, one run each (own memo)
         wide = battery_wide(work, tier)
         wpath = os.path.join(work, "battery-wide.json")
@@ -234,8 +268,7 @@ def check(tier):
                 rep.violation({"clause": clause, "mode": "wide", "cfg": "/".join(r["input"]), "root": "%s:%s" % (item.get("kind", ""), item.get("cls", ""))},
                               {"mode": "wide", "input": r["input"], "event": ev, "expected": f.get("expected"), "value": item})
         nev += wnev
-        for f in common.tagged_lines(out, "@F"):
-            r = runs[f["run"] - 1]
+        for r, f in fails:
             ev = r["events"][f["l"] - 1]
             for clause in f["c"]:
                 if clause == "H_create":
